@@ -1,8 +1,8 @@
 use std::{
     cmp::Ordering,
-    collections::HashSet,
+    collections::{HashSet, hash_map::DefaultHasher},
     fmt::Debug,
-    hash::{Hash, Hasher},
+    hash::{BuildHasherDefault, Hash, Hasher},
 };
 
 // web_time can be used on non-wasm32 but to avoid the dependency.
@@ -530,8 +530,15 @@ fn simplify_repairs<
     // Use a HashSet as a quick way of deduplicating repair sequences: occasionally we can end up
     // with hundreds of thousands (!), and we don't have a sensible ordering on ParseRepair to make
     // it plausible to do a sort and dedup.
-    let mut hs: HashSet<Vec<ParseRepair<LexerTypesT::LexemeT, StorageT>>> =
-        all_rprs.drain(..).collect();
+    //
+    // The order in which the set hands the sequences back decides the order of equally ranked
+    // sequences below, and thus which repair is applied: use a hasher without a per-process random
+    // seed, so that the same parser gives the same result for the same input on every run and in
+    // every thread.
+    let mut hs: HashSet<
+        Vec<ParseRepair<LexerTypesT::LexemeT, StorageT>>,
+        BuildHasherDefault<DefaultHasher>,
+    > = all_rprs.drain(..).collect();
     all_rprs.extend(hs.drain());
 
     // Sort repair sequences:
